@@ -20,13 +20,13 @@ import (
 // short write, SIGKILL before the step, SIGKILL after half a write – is executed and the target file inspected.
 
 type c12Combo struct {
-	Name   string   `json:"name"`
-	Input  string   `json:"input"`
-	Args   []string `json:"args"` // yq arguments without -i and without the file name
-	XDev   bool     `json:"xdev"` // temp dir on another file system
-	Mode   uint32   `json:"mode"`
-	Front  bool     `json:"front"`
-	EvalAll bool    `json:"eval_all"`
+	Name    string   `json:"name"`
+	Input   string   `json:"input"`
+	Args    []string `json:"args"` // yq arguments without -i and without the file name
+	XDev    bool     `json:"xdev"` // temp dir on another file system
+	Mode    uint32   `json:"mode"`
+	Front   bool     `json:"front"`
+	EvalAll bool     `json:"eval_all"`
 }
 
 type c12Case struct {
@@ -97,13 +97,13 @@ func c12Combos(thorough bool) []c12Combo {
 }
 
 type c12Obs struct {
-	Exit    int
-	Killed  bool
-	Bytes   string
-	Mode    uint32
-	Stderr  string
-	Stdout  string
-	Steps   []string
+	Exit   int
+	Killed bool
+	Bytes  string
+	Mode   uint32
+	Stderr string
+	Stdout string
+	Steps  []string
 }
 
 // c12Exec runs yq once in a fresh scratch directory. inPlace=false gives the reference output on stdout.
